@@ -57,3 +57,15 @@ package utils
 //@   trusted "utils/timer.go is outside the sequential subset (C19 not applicable)"
 //@   requires t != nil
 //@   noeffect
+
+// ---- session ids: 18 bytes, bytes 10..17 are the big-endian value of a process-wide counter that is
+// incremented once per id (so two ids of one process differ in those bytes), encoded with the URL-safe alphabet
+//@ func (*base64Id).GenerateId()
+//@   props C04, C20
+//@   requires b != nil
+//@   modifies b.sequenceNumber
+//@   ensures [C04.idcounter,C20.idcounter] (result1 == nil ==> b.sequenceNumber.v == old(b.sequenceNumber.v) + 1) && (result1 != nil ==> b.sequenceNumber.v == old(b.sequenceNumber.v) && result0 == "")
+//@   callsite (encoding/binary.bigEndian).PutUint64#1
+//@     assert [C04.idseq,C20.idseq] $v == old(b.sequenceNumber.v) && backing($b) == backing(r) && off($b) == off(r) + 10 && len($b) == 8
+//@   callsite (*encoding/base64.Encoding).EncodeToString#1
+//@     assert [C04.idurlsafe,C20.idurlsafe] $enc == base64.RawURLEncoding && $src == r && len(r) == 18
